@@ -547,6 +547,27 @@ def r12_8(prog: Program, rep: Report):
                     for tg in n.targets:
                         if isinstance(tg, _ast.Subscript) and isinstance(tg.value, _ast.Name) and tg.value.id in captured:
                             writes.append(f"del {tg.value.id}[…]")
+            # ... nor read a captured *one-shot* iterator: a generator (or map/filter/zip/iter/reversed object) bound in the
+            # enclosing call is exhausted by the closure's first use, every later use sees it empty
+            used = {x.id for x in _ast.walk(d) if isinstance(x, _ast.Name) and isinstance(x.ctx, _ast.Load)} & captured
+
+            def one_shot(v):
+                if isinstance(v, _ast.GeneratorExp):
+                    return True
+                if isinstance(v, _ast.IfExp):
+                    return one_shot(v.body) or one_shot(v.orelse)
+                if isinstance(v, _ast.Call) and isinstance(v.func, _ast.Name) and v.func.id in ("map", "filter", "zip", "iter", "reversed", "enumerate"):
+                    return True
+                return False
+
+            shots = []
+            for n in _ast.walk(f.node):
+                if isinstance(n, (_ast.Assign, _ast.AnnAssign)) and n.value is not None and not any(n is m for m in _ast.walk(d)):
+                    tgs = n.targets if isinstance(n, _ast.Assign) else [n.target]
+                    for tg in tgs:
+                        if isinstance(tg, _ast.Name) and tg.id in used and one_shot(n.value):
+                            shots.append(tg.id)
+            rep.check(not shots, "R12.8", f"{q}.<locals>.{d.name}", f"{f.module.relpath}:{d.lineno}", "the escaping closure captures no one-shot iterator", f"the closure outlives {f.name}() and reads `{(shots or [''])[0]}`, which that call bound to a generator / one-shot iterator: the first use of the closure exhausts it and every later use finds it empty -- the field iterator cached per class yields the fields of the first instance only, then nothing", detail="closure-one-shot")
             rep.check(not writes, "R12.8", f"{q}.<locals>.{d.name}", f"{f.module.relpath}:{d.lineno}", "the escaping closure does not write the variables it captures", f"the closure outlives {f.name}() and writes captured state ({(sorted(set(writes)) or [''])[0]}): what an earlier call stored decides what a later call returns (the closure is cached per type)", detail="closure-state")
     rep.count("escaping_closures", nclos)
     # routine attributes are written only by constructors and the two proxy latches
